@@ -34,6 +34,37 @@ const (
 
 var le = binary.LittleEndian
 
+// layoutProblems returns the problems the independent decoder finds, without
+// the two that only say "the allocation limit is not a multiple of 32": the
+// layout documents the limit as the byte offset of the end of the counter
+// records, and a writer may store the exact, unrounded end of its last record
+// (rt.DecodeV1 compares with the rounded end).
+func layoutProblems(f *rt.V1File) []string {
+	first := f.HdrLen + 4 + 4*512
+	var out []string
+	for _, p := range f.Problems {
+		if strings.HasPrefix(p, "limit ") && strings.HasSuffix(p, " malformed") && f.Limit >= first {
+			continue
+		}
+		if strings.HasPrefix(p, "record ") && strings.Contains(p, " above limit ") && f.Limit != 0 {
+			var off uint32
+			if _, err := fmt.Sscanf(p, "record 0x%x", &off); err == nil {
+				spurious := false
+				for _, r := range f.Records {
+					if r.Off == off && r.Off+16+uint32(len(r.Name)) <= f.Limit {
+						spurious = true
+					}
+				}
+				if spurious {
+					continue
+				}
+			}
+		}
+		out = append(out, p)
+	}
+	return out
+}
+
 // ------------------------------------------------------------ guarded call
 
 type outcome struct {
@@ -194,7 +225,7 @@ func absName(in *interner, s string) aname {
 func abstractFile(in *interner, data []byte) afile {
 	f := afile{Size: len(data), Meta: []ameta{}, Heads: []ahead{}, Recs: []arec{}}
 	f.Prefix = len(data) >= len(rt.V1Prefix) && string(data[:len(rt.V1Prefix)]) == rt.V1Prefix
-	f.DV1 = rt.DecodeV1(data).WellFormed()
+	f.DV1 = len(layoutProblems(rt.DecodeV1(data))) == 0
 	if len(data) < 32 {
 		return f
 	}
@@ -611,8 +642,8 @@ func TestVerifC06Vec(t *testing.T) {
 		case v.Kind == "ok":
 			// self-check of the concretization: the independent decoder must agree that the bytes are well-formed
 			dv := rt.DecodeV1(data)
-			if !dv.WellFormed() {
-				rt.Out(rt.M{"kind": "infra", "i": i, "what": "independent decoder rejects a vector the specification calls well-formed", "problems": dv.Problems, "vec": v.Vec})
+			if pr := layoutProblems(dv); len(pr) > 0 {
+				rt.Out(rt.M{"kind": "infra", "i": i, "what": "independent decoder rejects a vector the specification calls well-formed", "problems": pr, "vec": v.Vec})
 				continue
 			}
 			want := map[string]uint64{}
@@ -822,6 +853,16 @@ func validFile(rng *rand.Rand, large bool) []byte {
 		}
 	case 1: // a further, still unused page
 		data = append(data, make([]byte, page)...)
+	case 2: // a writer that stores the exact end of its last record as the limit (not a multiple of 32)
+		var end uint32
+		for _, r := range rt.DecodeV1(data).Records {
+			if e := r.Off + 16 + uint32(len(r.Name)); e > end {
+				end = e
+			}
+		}
+		if end != 0 {
+			le.PutUint32(data[le.Uint32(data[28:]):], end)
+		}
 	}
 	return data
 }
